@@ -100,8 +100,20 @@ def propose_add_native(vc):
     optimizer = vc.choice("optimizer", ["bfgs", "diffev"])
     acq_cls = [ExpectedImprovement, UpperConfidenceBound, MaxVariance][seed % 3]
     as_array = vc.bool("bounds_given_as_array")
+    integer_data = vc.bool("initial_data_given_as_integers")
     opt, x, y, bounds, x_in = _optimiser(rng, d, acq_cls, optimizer=optimizer if acq_cls is ExpectedImprovement else "bfgs",
                                          as_flat=True, bounds_as_array=as_array)
+    if integer_data:
+        # a data set whose initial x / y happen to be whole numbers given with an integer dtype: later evaluations are not
+        from inference.gp import GpOptimiser
+        xi = np.round(x * 2).astype(int)
+        xi = xi + np.arange(len(xi))[:, None] * 0                 # (keep shape)
+        _, uniq = np.unique(xi, axis=0, return_index=True)
+        xi = xi[np.sort(uniq)]
+        yi = np.round(np.cos(xi.sum(axis=1)) * 4).astype(int)
+        x_in = xi.copy()
+        opt = GpOptimiser(x_in, yi.copy(), bounds=bounds, y_err=np.full(len(yi), 0.05), acquisition=acq_cls,
+                          optimizer=optimizer if acq_cls is ExpectedImprovement else "bfgs")
     bounds_before = np.array(bounds, dtype=float).copy()
     x_before, shape_before = x_in.copy(), x_in.shape
     ok_in, ok_data, ok_args = True, True, True
